@@ -123,12 +123,22 @@ def gen_coqproject():
 
 def make_targets(targets, timeout=1500):
     '''Build the given .vo targets (and what they depend on). Returns (ok, log).'''
-    gen_coqproject()
     cmd = ['make', '-k', f'-j{NCPU}'] + targets
-    try:
-        p = subprocess.run(cmd, cwd=COQ, stdout=subprocess.PIPE, stderr=subprocess.STDOUT, text=True, timeout=timeout, preexec_fn=_limits)
-    except subprocess.TimeoutExpired as e:
-        return False, f'make timed out after {timeout}s\n' + (e.stdout or '')
+    for attempt in (0, 1):
+        gen_coqproject()
+        try:
+            p = subprocess.run(cmd, cwd=COQ, stdout=subprocess.PIPE, stderr=subprocess.STDOUT, text=True, timeout=timeout, preexec_fn=_limits)
+        except subprocess.TimeoutExpired as e:
+            return False, f'make timed out after {timeout}s\n' + (e.stdout or '')
+        if p.returncode != 0 and attempt == 0 and ('.Makefile.d' in p.stdout or 'No such file or directory' in p.stdout):
+            # the file list changed under us (a source file was added/removed since _CoqProject was written): regenerate and retry once
+            for stale in ('_CoqProject', '.Makefile.d'):
+                try:
+                    os.remove(os.path.join(COQ, stale))
+                except OSError:
+                    pass
+            continue
+        break
     return p.returncode == 0, p.stdout
 
 
